@@ -35,6 +35,11 @@ PROPERTIES = {
     rule='arbitrary trees (depth <= 3: arrays of scalars / of objects, objects holding arrays, byte containers) with 1..6 values at any depth replaced by certainly mismatching values (other scalar kind, string, array, object, out-of-range number; for text archives: unparsable text), loaded with both Skip policies into a sentinel-filled target of the clean shape + envelope sentinel; typed objects with Required() on every field; 4 archives, memory and streams; oracle = model_skip (clean document)',
     assumptions=TRUSTED + ['nil is "not loaded" under either policy (not used as an offence)', 'bool -> integer and (JSON) integer -> float are legal conversions, not offences', 'an int array for a byte container is legal (falls back to a regular array)'],
     units=[U('c05_skip', 'c05_skip.cpp', flavour='asan', libs=['-lpugixml'], quick=dict(cases=20000, shards=8, min_eval=50000), thorough=dict(cases=600000, shards=16, min_eval=1000000))]),
+ 'C17': dict(
+    level='exploration', exhaustive_claim=False,
+    rule='object with 10 fields (int32, double, string, vector, e-mail, phone, uint8, nested object, array of objects, map of objects), each with 0..3 runtime-chosen validators out of Required / Range / MinSize / MaxSize / Email / PhoneNumber / custom functors + lambda, default or custom messages; every field present (at, just inside, just outside each bound), absent, null or mismatched-and-skipped; maxValidationErrors in {0,1,2,3,4,8}; 4 archives, memory and streams; oracle = reference model of the documented validator rules predicting failing paths and messages in load order',
+    assumptions=TRUSTED + ['array / row positions inside paths are wildcards (the property exempts them)', 'default PhoneNumber messages are only required to start with "Invalid phone number"; e-mail labels starting with a digit and phones with repeated "+" are not generated (documentation is silent)', 'mismatches are generated under the Skip policies (C05 covers the policies themselves)'],
+    units=[U('c17_validation', 'c17_validation.cpp', flavour='asan', libs=['-lpugixml'], quick=dict(cases=20000, shards=8, min_eval=50000), thorough=dict(cases=600000, shards=16, min_eval=1000000))]),
  'C09': dict(
     level='exploration', exhaustive_claim=False,
     rule='generated tables (1..8 columns, 1..12 rows; cells: arbitrary Unicode incl. separators, quotes, CR, LF, CRLF, blanks, U+0000, long cells, numbers, booleans, ISO dates, empty) x 5 separators x memory/stream x 5 encodings x BOM; forward: strict RFC 4180 reference parser recovers header + cells; converse: reference writer with free quoting / LF or CRLF / optional final break / permuted columns loads to the same rows (maps and typed by-name struct); ragged records rejected',
